@@ -639,6 +639,15 @@ func (u *Unit) toBV(t Term, s *Sort) Term {
 			return bvConst(n, s)
 		}
 		u.bridgeFact(fmt.Sprintf("(=> (and (<= 0 %[1]s) (< %[1]s %[2]s)) (= (bv2nat ((_ int2bv %[3]d) %[1]s)) %[1]s))", t.S, new(big.Int).Lsh(big.NewInt(1), uint(s.W)).String(), s.W))
+		// int2bv is a ring homomorphism: spell it out for a top-level sum or difference
+		if sx, err := parseSexprs(t.S); err == nil && len(sx) == 1 && len(sx[0].list) == 3 && (sx[0].list[0].atom == "+" || sx[0].list[0].atom == "-") {
+			op := "bvadd"
+			if sx[0].list[0].atom == "-" {
+				op = "bvsub"
+			}
+			a, b := sx[0].list[1].String(), sx[0].list[2].String()
+			u.bridgeFact(fmt.Sprintf("(= ((_ int2bv %[1]d) %[2]s) (%[3]s ((_ int2bv %[1]d) %[4]s) ((_ int2bv %[1]d) %[5]s)))", s.W, t.S, op, a, b))
+		}
 		return Term{fmt.Sprintf("((_ int2bv %d) %s)", s.W, t.S), s}
 	}
 	panic(unsupported{"toBV of sort kind " + fmt.Sprint(t.T.K)})
